@@ -232,7 +232,19 @@ pub fn run_c08(ctx: &Ctx, sink: &mut Sink) {
                 2 => toks.push(format!("maxdepth:{}", rng.below(3))),
                 _ => {}
             }
-            toks.push(exec);
+            let two = rng.chance(1, 3);
+            if two {
+                // two `+` actions in one expression (told apart by their first fixed argument)
+                let dir2 = rng.chance(1, 2);
+                let mut f1 = vec![b"A1".to_vec()];
+                f1.extend(fixed.iter().cloned());
+                let f2: Vec<Vec<u8>> = vec![b"B2".to_vec()];
+                toks.push(format!("execm:0:{}:{}:{}:{}", dir as u8, ok as u8, hex(&cmd), hexjoin(&f1)));
+                if rng.chance(1, 3) { toks.push("o".into()); toks.push("true".into()); toks.push("comma".into()); }
+                toks.push(format!("execm:1:{}:1:{}:{}", dir2 as u8, hex(&rec), hexjoin(&f2)));
+            } else {
+                toks.push(exec);
+            }
             match rng.below(6) {
                 0 => { toks.push(format!("lit:{}", hex(b"T\n"))); }
                 1 => { toks.push("quit".into()); }
@@ -244,6 +256,7 @@ pub fn run_c08(ctx: &Ctx, sink: &mut Sink) {
             let roots = pick_exec_roots(&mut rng, &sc);
             let (req, imp) = run_exec_case(ctx, &sc, "P", &roots, &ExecCase { toks: toks.clone(), script }, &mut rng);
             let mut tags = vec!["multi", "nt"];
+            if two { tags.push("two-actions"); }
             if dir { tags.push("execdir"); }
             if !ok { tags.push("missing-command"); }
             if toks.iter().any(|t| t == "quit") { tags.push("quit"); }
